@@ -61,11 +61,11 @@ type Inst struct {
 	Orcs []Oracle
 
 	// block book: universe blocks plus blocks mined in this history
-	blocks map[string][]byte
-	Parent map[string]string
-	Height map[string]int64
-	Names  *world.Names
-	mined  int
+	blocks  map[string][]byte
+	Parent  map[string]string
+	Height  map[string]int64
+	Names   *world.Names
+	mined   int
 	minedID map[string][]byte
 
 	// Ref is the ledger reference tree; Accepted is the sequence of block names
